@@ -385,7 +385,9 @@ def build(rng, U, G, op, cplx):
         return (lambda: getattr(ufl, op)(a.obj, b.obj)), (lambda x, y: R.elem(op[5:], x, y)), [a, b]
     if op == "conditional":
         ca, cb = A((), allow_fi=False, hostile=False), A((), allow_fi=False, hostile=False)
-        rel = rng.choice(["lt", "gt", "le", "ge", "eq", "ne", "and", "or", "not"])
+        if rng.random() < 0.25:
+            cb = ca  # an exact tie: the very same operand on both sides (lt, gt, ne false; le, ge, eq true)
+        rel = rng.choice(["lt", "gt", "le", "ge", "eq", "ne", "and", "or", "not", "not", "not-le", "not-ge", "not-gt"])
         t, f = A(sh), A(sh, allow_fi=False)
         if isinstance(t.obj, ufl.core.expr.Expr) and t.obj.ufl_free_indices:
             f = Operand(t.obj * 2, "same-indices")
@@ -401,8 +403,10 @@ def build(rng, U, G, op, cplx):
                 c = ufl.And(ufl.lt(ra, rb), ufl.gt(rc, 0.25))
             elif rel == "or":
                 c = ufl.Or(ufl.lt(ra, rb), ufl.gt(rc, 0.25))
-            else:
+            elif rel == "not":
                 c = ufl.Not(ufl.lt(ra, rb))
+            else:
+                c = ufl.Not(getattr(ufl, rel[4:])(ra, rb))
             return ufl.conditional(c, t.obj, f.obj)
 
         def rr(x, y, z, tt, ff):
@@ -413,8 +417,10 @@ def build(rng, U, G, op, cplx):
                 c = R.logical("and", R.compare("lt", x, y), R.compare("gt", z, R.lit(0.25)))
             elif rel == "or":
                 c = R.logical("or", R.compare("lt", x, y), R.compare("gt", z, R.lit(0.25)))
-            else:
+            elif rel == "not":
                 c = R.logical("not", R.compare("lt", x, y))
+            else:
+                c = R.logical("not", R.compare(rel[4:], x, y))
             return R.conditional(c, tt, ff)
 
         return mk, rr, [ca, cb, cc, t, f]
